@@ -76,10 +76,20 @@ def hasStatements : Block → Bool
   | .mk _ (.cons _ _) _ => true
   | _ => false
 
-/-- a value that is certainly exactly one non-nil value, spelled without parentheses -/
+/-- what a parenthesised value is inside its parentheses -/
+def innermostOfParens : Expr → Expr
+  | .paren _ e => innermostOfParens e
+  | e => e
+
+/-- a value that is certainly exactly one non-nil value: a plain single-valued expression, or a parenthesised
+    expression other than `nil` (parentheses truncate `...` to one value; a parenthesised *call* is left out,
+    the lint is deliberately lenient there) -/
 def plainSingle : Expr → Bool
   | .num _ | .str _ _ _ | .true_ _ | .false_ _ | .tbl _ _ | .func _ _ _ | .bin _ _ _ _ | .un _ _ _ => true
   | .var _ => true
+  | .paren _ e => match innermostOfParens e with
+    | .call _ | .nil _ => false
+    | _ => true
   | _ => false
 
 structure ValueDef where
